@@ -140,8 +140,8 @@ pub unsafe fn take_header_list(p: *const CHeaderMap) -> Vec<(String, String)> {
     let mut cur = p as *mut CHeaderMap;
     while !cur.is_null() {
         let node = Box::from_raw(cur);
-        let n = take_string(node.name).unwrap_or_default();
-        let v = take_string(node.value).unwrap_or_default();
+        let n = take_string(node.name).unwrap_or_else(|| "<NULL>".to_string());
+        let v = take_string(node.value).unwrap_or_else(|| "<NULL>".to_string());
         out.push((n, v));
         cur = node.next;
     }
